@@ -299,7 +299,20 @@ pub struct OpStats {
 }
 
 /// `None` = agree; `Some(reason)` = disagree.  With `err_class` false only ok/err is compared.
-pub fn compare(imp: &str, model: &str, tol: Tol, st: &mut OpStats) -> Option<String> {
+/// the magnitude of a request's floating-point operands (its 8-hex-digit tokens), capped at 1: an
+/// output that is small only because large terms cancelled is still only known to about `eps * operands`
+pub fn request_scale(req: &str) -> f32 {
+    let m = req
+        .split_whitespace()
+        .filter(|t| t.len() == 8 && t.chars().all(|c| c.is_ascii_hexdigit()) && t.chars().any(|c| c.is_ascii_alphabetic()))
+        .filter_map(|t| u32::from_str_radix(t, 16).ok())
+        .map(f32::from_bits)
+        .filter(|x| x.is_finite())
+        .fold(0.0f32, |m, x| m.max(x.abs()));
+    m.min(1.0)
+}
+
+pub fn compare(imp: &str, model: &str, tol: Tol, st: &mut OpStats, scale: f32) -> Option<String> {
     st.cases += 1;
     let a: Vec<&str> = imp.split_whitespace().collect();
     let b: Vec<&str> = model.split_whitespace().collect();
@@ -324,7 +337,8 @@ pub fn compare(imp: &str, model: &str, tol: Tol, st: &mut OpStats) -> Option<Str
         .iter()
         .filter_map(|t| parse_f(t))
         .filter(|x| x.is_finite())
-        .fold(0.0f32, |m, x| m.max(x.abs()));
+        .fold(0.0f32, |m, x| m.max(x.abs()))
+        .max(scale);
     for (i, (x, y)) in a.iter().zip(b.iter()).enumerate() {
         match (parse_f(x), parse_f(y)) {
             (Some(p), Some(q)) => {
